@@ -128,7 +128,7 @@ fn op_sreq(suffix: &[u8], hash: &[u8], peer_id: &[u8], plen: u64, total: u64, bi
             return "hang";
         }
         // let the tracker task make its announce
-        for _ in 0..400 {
+        for _ in 0..900 {
             if !s.verif_tracker_job_held() || s.verif_tracker_job().as_ref().map(|j| j.is_finished()).unwrap_or(true) {
                 break;
             }
